@@ -1,10 +1,40 @@
 import PyxModel.Sexp
+import PyxModel.Extract.Wire
 
-/-! driver commands of property C14 (stub: no command yet) -/
+/-! driver commands of property C14
+
+    (c14 <diagram> <name|none> <T|F>)                 -> (ok <schema>) | (error OoaOfOoaException)
+    (c14-edit <diagram> <name|none> <T|F> (<edit>…))  -> (ok <extract d> <extract (applyEdits es d)>
+                                                             <schemaEdits (resolveAll d es) (extract d)>)
+    (c14-sedit <schema> (<sedit>…))                   -> (ok <schemaEdits ses schema>)
+-/
 namespace Pyx.Driver.C14
-open Pyx Pyx.Sexp
+open Pyx Pyx.Sexp Pyx.Extract Pyx.Extract.Wire
+
+def bad : Sexp := list [sym "error", sym "bad-command"]
 
 def handle : List Sexp → Option Sexp
+  | [sym "c14", d, n, v] =>
+    some (match dDiagram d, dName n, dBool v with
+      | some d, some n, some v =>
+        match extractByName d n v with
+        | some s => list [sym "ok", eSchema s]
+        | none => list [sym "error", sym "OoaOfOoaException"]
+      | _, _, _ => bad)
+  | [sym "c14-edit", d, n, v, es] =>
+    some (match dDiagram d, dName n, dBool v, dList dEdit es with
+      | some d, some n, some v, some es =>
+        match selectComp d.containers n with
+        | some comp =>
+          let s0 := extract d comp v
+          list [sym "ok", eSchema s0, eSchema (extract (applyEdits es d) comp v),
+                eSchema (schemaEdits (resolveAll d comp v es) s0)]
+        | none => list [sym "error", sym "OoaOfOoaException"]
+      | _, _, _, _ => bad)
+  | [sym "c14-sedit", s, es] =>
+    some (match dSchema s, dList dSEdit es with
+      | some s, some es => list [sym "ok", eSchema (schemaEdits es s)]
+      | _, _ => bad)
   | _ => none
 
 end Pyx.Driver.C14
